@@ -30,6 +30,9 @@ def run(sh):
     engine_line.run_profile(sh, 'C03', 'general', n // 4, MONITORS, nontrivial)
     engine_line.run_profile(sh, 'C03', 'resources', n // 4, MONITORS, nontrivial)
     engine_line.run_profile(sh, 'C03', 'resfaults', n // 2, MONITORS, nontrivial)
+    # group paths created while the simulation runs (upstream at creation, downstream afterwards)
+    engine_line.run_profile(sh, 'C03', 'blocking', n // 4, MONITORS, nontrivial, prefix='latepath_',
+                            overrides={'p_late_path': 2.0}, tag='latepath')
     from ..modelgen import DECIMAL
     engine_line.run_profile(sh, 'C03', 'blocking', n // 4, MONITORS, nontrivial, prefix='decimal_', overrides=DECIMAL,
                             tag='decimal')
